@@ -41,6 +41,7 @@ type Case struct {
 	TZ      string           `json:"tz,omitempty"`   // client: the caller's zone is this real zone with DST rules (overrides Zone)
 	NS      int              `json:"ns,omitempty"`   // client: sub-second part added to instants
 	Path    string           `json:"path"`
+	Prelude []int            `json:"prelude,omitempty"` // server: indices into preludes, requests served by the same handler first
 	Lexical []int            `json:"lexical,omitempty"` // server: lexical choices of the writer
 }
 
@@ -393,11 +394,25 @@ func evalServer(c Case) (vev.Outcome, error) {
 		return vev.Outcome{}, err
 	}
 	b := &vdbl.CalBackend{Principal: "/u/", HomeSet: "/u/cal/"}
+	h := &caldav.Handler{Backend: b}
+	// earlier requests served by the same handler (an accepted query with expansion and a partial retrieval, a refused
+	// one, a multiget, something unparseable) must leave nothing behind for the request under test
+	for _, k := range c.Prelude {
+		doc := preludes[k%len(preludes)]
+		praw := fmt.Sprintf("REPORT /u/cal/earlier/ HTTP/1.1\r\nHost: dav.example\r\nDepth: 1\r\nContent-Type: text/xml\r\nContent-Length: %d\r\n\r\n%s", len(doc), doc)
+		if preq, err := http.ReadRequest(bufio.NewReader(strings.NewReader(praw))); err == nil {
+			func() {
+				defer func() { recover() }()
+				h.ServeHTTP(httptest.NewRecorder(), preq)
+			}()
+		}
+	}
+	b.Reset()
 	w := httptest.NewRecorder()
 	var pan any
 	func() {
 		defer func() { pan = recover() }()
-		(&caldav.Handler{Backend: b}).ServeHTTP(w, req)
+		h.ServeHTTP(w, req)
 	}()
 	if pan != nil {
 		return dev("server|"+c.Kind+"|panic", "panic: %v on %q", pan, body), nil
@@ -752,6 +767,14 @@ func TestClientToWire(t *testing.T) {
 	})
 }
 
+var preludes = []string{
+	`<C:calendar-query xmlns:C="urn:ietf:params:xml:ns:caldav" xmlns:D="DAV:"><D:prop><D:getetag/><C:calendar-data><C:expand start="20010101T000000Z" end="20010201T000000Z"/></C:calendar-data></D:prop><C:filter><C:comp-filter name="VCALENDAR"><C:comp-filter name="VEARLIER"><C:time-range start="20010101T000000Z"/><C:prop-filter name="EARLIER"><C:text-match negate-condition="yes">earlier</C:text-match></C:prop-filter></C:comp-filter></C:comp-filter></C:filter></C:calendar-query>`,
+	`<C:calendar-query xmlns:C="urn:ietf:params:xml:ns:caldav" xmlns:D="DAV:"><D:prop><C:calendar-data><C:comp name="VCALENDAR"><C:prop name="EARLIER"/><C:comp name="VEARLIER"><C:allprop/></C:comp></C:comp></C:calendar-data></D:prop><C:filter><C:comp-filter name="VCALENDAR"><C:comp-filter name="VEARLIER"><C:is-not-defined/><C:prop-filter name="X"/></C:comp-filter></C:comp-filter></C:filter></C:calendar-query>`,
+	`<C:calendar-multiget xmlns:C="urn:ietf:params:xml:ns:caldav" xmlns:D="DAV:"><D:prop><C:calendar-data><C:expand start="20010101T000000Z" end="20010201T000000Z"/><C:comp name="VCALENDAR"><C:allprop/></C:comp></C:calendar-data></D:prop><D:href>/u/cal/earlier/1.ics</D:href><D:href>/u/cal/earlier/2.ics</D:href></C:calendar-multiget>`,
+	`<C:calendar-query xmlns:C="urn:ietf:params:xml:ns:caldav"><C:filter><C:comp-filter name="VCALENDAR"><C:comp-filter name="VEARLIER">`,
+	`<C:calendar-query xmlns:C="urn:ietf:params:xml:ns:caldav" xmlns:D="DAV:"><D:allprop/><C:filter><C:comp-filter name="VCALENDAR"><C:prop-filter name="EARLIER"><C:time-range start="yesterday"/></C:prop-filter></C:comp-filter></C:filter></C:calendar-query>`,
+}
+
 func TestWireToBackend(t *testing.T) {
 	if vev.ReplayFile() != "" {
 		t.Skip()
@@ -759,6 +782,9 @@ func TestWireToBackend(t *testing.T) {
 	vev.Rapid(t, rec, 1, vev.N(3000, 150000), func(rt *rapid.T) {
 		c := Case{Dir: "server", Path: genPath(rt)}
 		c.Lexical = rapid.SliceOfN(rapid.IntRange(0, 11), 40, 40).Draw(rt, "lexical")
+		if rapid.Bool().Draw(rt, "prelude?") {
+			c.Prelude = rapid.SliceOfN(rapid.IntRange(0, len(preludes)-1), 1, 3).Draw(rt, "prelude")
+		}
 		others := []string{"getetag", "getlastmodified", "getcontenttype", "displayname"}
 		if rapid.IntRange(0, 3).Draw(rt, "kind") == 0 {
 			c.Kind = "multiget"
